@@ -67,7 +67,8 @@ func blockedState(sig string) bool {
 		return false
 	}
 	st := strings.TrimSuffix(sig[a+1:], "]")
-	for _, p := range []string{"chan receive", "chan send", "select", "semacquire", "sync."} {
+	// ("coroutine": the parked half of an iter.Pull pair, which only its creator can resume)
+	for _, p := range []string{"chan receive", "chan send", "select", "semacquire", "sync.", "coroutine"} {
 		if strings.HasPrefix(st, p) {
 			return true
 		}
